@@ -9,13 +9,17 @@
         Nq.SendReport of C18/C19 for slot numbers, message numbers and REPORTMAX)
     (d) dns.c record walking over a bounded response             — Nq.Dns
     (e) the cdb reader on arbitrary files                        — Nq.Users.cdbSeek (model of C11)
+    (f) token822.c count-allocate-fill: parse pass 1 vs pass 2,  — Nq.TokPass, Nq.TokFill
+        unparse / unquote length walk vs fill walk
+    (g) qmail-local.c main(): numforward count vs recips[] fill  — Nq.LocalPass
+    (h) getln2 / getln / byte_chr over substdio + stralloc       — Nq.Getln
   What is NOT proved (and cannot be carried by these models): absence of undefined behaviour in the
-  compiled C outside (a)–(e) — pointer aliasing, signal handlers, libc/libresolv, every parser's own
-  loops.  That part of the property is covered only by sanitised execution (harness/c20_*.c and the
+  compiled C outside (a)–(h) — pointer aliasing, signal handlers, libc/libresolv, the other parsers'
+  loops (token822_addrlist, headerbody, hfield, control, constmap, ip, scan).  That part of the property is covered only by sanitised execution (harness/c20_*.c and the
   ASan+UBSan builds used by every other property's harness) and is labelled so in the evidence.
 
-  Tie to the source: the models are compared with the real functions by harness/c20_lib.c and
-  harness/c20_dns.c on every run (DISAGREE channel); the constants and the presence of each guard are
+  Tie to the source: the models are compared with the real functions by harness/c20_lib.c,
+  harness/c20_dns.c, c20_fixed.c, c20_parse.c (kinds tok, utok, gl2, cdb) and c20_local.c on every run (DISAGREE channel); the constants and the presence of each guard are
   regenerated from /repo into Nq.Gen.C20Bounds (translator).
 -/
 import Nq.Lemmas.C20Stralloc
@@ -24,6 +28,10 @@ import Nq.Lemmas.C20Dns
 import Nq.Lemmas.C20Fixed
 import Nq.Lemmas.C20Cdb
 import Nq.Lemmas.C20Caps
+import Nq.Lemmas.C20TokPass
+import Nq.Lemmas.C20TokFill
+import Nq.Lemmas.C20LocalPass
+import Nq.Lemmas.C20Getln
 import Nq.Gen.QQClose
 import Nq.Gen.C20Bounds
 import Nq.Lemmas.SpawnL
@@ -595,6 +603,181 @@ theorem C20_cdb_get_slice (f key d : Bytes) (h : cdbGet f key = .found d) :
   · cases h
 
 end cdb
+
+/-! ## (f) token822.c: count, allocate, fill -/
+
+section tok
+open Nq.TokPass
+
+/-- **token822_parse, pass 1 counts = pass 2 stores, for every field.**  When the counting pass returns
+`(numtoks, numchars)` (i.e. does not `return 0`), the filling pass — which has no bounds test of its own inside
+`( )`, `" "`, `[ ]` and never compares `t` / `cbuf` with the allocated sizes — ends with exactly `numtoks` tokens
+and `numchars` buffer bytes, never reads `sa->s[salen]`, stores only to `ta->t[k]` with `k < numtoks` and to
+`buf->s[j]` with `j < numchars` (atomcheck() reads only such `j`), and its buffer stores are `0,1,…,numchars-1`
+in this order, each exactly once. -/
+theorem C20_tok_parse_two_pass (s : Bytes) (nt nc : Nat) (h : pass1 s = some (nt, nc)) :
+    (pass2 s).t = nt ∧ (pass2 s).cb = nc ∧ (pass2 s).oob = false ∧
+    (∀ e ∈ (pass2 s).ev, e.ok nt nc) ∧ bufStores (pass2 s).ev = List.range nc := by
+  obtain ⟨a1, a2, a3, _, _, a6⟩ := run_sim s .top 0 0 0 nt nc h
+  refine ⟨a1, a2, a3, a6, ?_⟩
+  have := (run2_buf s .top 0 0 0).1
+  unfold pass2
+  rw [this, a2, List.range_eq_range']
+  simp
+
+/-- complement: the hypothesis is what protects pass 2.  Pass 2 on its own is NOT safe — on the field `(` (which
+pass 1 refuses: `return 0` before anything is allocated) it would read `sa->s[1]` of a one-byte field. -/
+theorem C20_tok_parse_pass2_needs_pass1 :
+    pass1 [LPAR] = none ∧ (pass2 [LPAR]).oob = true := by decide
+
+open Nq.TokFill in
+/-- **token822_unparse, for every token array (any types, any bytes) and every `linelen`**: every offset the second
+walk stores to or reads back — including the NSUW folding macro, which writes two bytes ahead of the cursor and
+shifts the line back over a tentative fold — is below the length the first walk computed and handed to
+`stralloc_ready`; the final `sa->len` is below it too (and ≥ 1: the `--s` never leaves the block). -/
+theorem C20_tok_unparse_within_count (linelen : Nat) (ts : List Tk) :
+    (∀ i ∈ (unparseFill linelen ts).ix, i.idx < ulen1 ts) ∧
+    (unparseFill linelen ts).len < ulen1 ts ∧ 1 ≤ (unparseFill linelen ts).len := by
+  have c0 : CurOk ⟨0, 0, none⟩ := ⟨Nat.le_refl _, by intro le h; cases h⟩
+  obtain ⟨a1, a2, a3⟩ := toksFill_spec linelen ts 0 ⟨0, 0, none⟩ c0 0 (Nat.le_refl _)
+  obtain ⟨_, _, n3, n4, n5⟩ := nsuw_spec linelen _ a1
+  simp only [unparseFill, ulen1]
+  refine ⟨?_, by omega, by omega⟩
+  intro i hi
+  rcases List.mem_append.1 hi with hi | hi
+  · have := a3 i hi; omega
+  · have := n5 i hi; omega
+
+open Nq.TokFill in
+/-- **token822_unquote**: the second walk stores to exactly the offsets `0 … len-1` the first walk counted, in order. -/
+theorem C20_tok_unquote_exact (ts : List Tk) :
+    (qFill ts 0).1 = qlen1 ts ∧ (qFill ts 0).2 = (List.range (qlen1 ts)).map Ix.st := by
+  obtain ⟨a, b⟩ := qFill_spec ts 0
+  refine ⟨by omega, ?_⟩
+  rw [b, List.range_eq_range']
+
+-- non-vacuity: `a@"b" (c\))` is accepted by pass 1 with 4 tokens / 4 bytes; a folded address list
+example : pass1 [97, 64, 34, 98, 34, 32, 40, 99, 92, 41, 41] = some (4, 4) := by decide
+open Nq.TokFill in
+example : ulen1 [⟨ATOM, [97]⟩, ⟨COMMA, []⟩, ⟨QUOTE, [34]⟩, ⟨COMMA, []⟩, ⟨ATOM, [98]⟩] = 16 ∧
+    (unparseFill 3 [⟨ATOM, [97]⟩, ⟨COMMA, []⟩, ⟨QUOTE, [34]⟩, ⟨COMMA, []⟩, ⟨ATOM, [98]⟩]).len = 15 ∧
+    (unparseFill 0 [⟨ATOM, [97]⟩, ⟨COMMA, []⟩, ⟨QUOTE, [34]⟩, ⟨COMMA, []⟩, ⟨ATOM, [98]⟩]).len = 11 := by decide
+open Nq.TokFill in
+example : qlen1 [⟨LITERAL, [49]⟩, ⟨COMMENT, [120]⟩, ⟨TAT, []⟩] = 4 := by decide
+
+end tok
+
+/-! ## (g) qmail-local.c main(): count the forward lines, calloc, fill `recips[]` -/
+
+section localpass
+open Nq.LocalPass
+
+/-- **qmail-local, for every content of the .qmail file (or of `aliasempty`), both values of the x bit, -n or not, and
+every outcome of the mbox / maildir / program deliveries on the way**: pass 2 stores `recips[0], recips[1], …` in
+order, never more than pass 1 counted, so every index stored to — including the terminating `recips[numforward] = 0`
+— is inside the `numforward + 1` pointers that were allocated; the program's own `count_forward` (which also counts
+with -n, where nothing is stored) obeys the same bound.  Pass 1 looks at the first byte of the raw line, pass 2 at
+the first byte after the line was cut and its trailing blanks were overwritten: the bound is an inequality (next
+theorem), not an identity. -/
+theorem C20_local_two_pass (doit : Bool) (env : Nat → Bool) (ffo : Bool) (cmds : Bytes) :
+    (∀ k ∈ allStores doit (pass2 doit env ffo cmds), k < pass1 cmds + 1) ∧
+    (pass2 doit env ffo cmds).stores = List.range (pass2 doit env ffo cmds).nf ∧
+    (pass2 doit env ffo cmds).nf ≤ pass1 cmds ∧ (pass2 doit env ffo cmds).cf ≤ pass1 cmds := by
+  obtain ⟨a, b, _, d⟩ := run2_bound doit env cmds [] true 0 0 0 ffo
+  simp only [List.head?_nil, Nat.zero_add, Nat.sub_zero] at a b d
+  have hb : (pass2 doit env ffo cmds).stores = List.range (pass2 doit env ffo cmds).nf := by
+    unfold pass2; rw [b, List.range_eq_range']
+  refine ⟨?_, hb, a, d⟩
+  intro k hk
+  unfold allStores at hk
+  rcases List.mem_append.1 hk with hk | hk
+  · rw [hb] at hk
+    have := List.mem_range.1 hk
+    unfold pass1 pass2 at *
+    omega
+  · split at hk
+    · simp at hk; subst hk; unfold pass1 pass2 at *; omega
+    · cases hk
+
+/-- the count is an upper bound only: an all-blank line is counted by pass 1 (its first byte is a blank) and skipped
+by pass 2 (its first byte has become NUL) — one pointer of the array stays unused -/
+theorem C20_local_pass1_overcounts :
+    pass1 [97, 10, 32, 10] = 2 ∧ (pass2 true (fun _ => false) false [97, 10, 32, 10]).nf = 1 := by decide
+
+-- non-vacuity: "a@b\n \n#c\n&d\n+list\n" : four lines counted, two stored (indices 0, 1), terminator at 2
+example : pass1 [97, 64, 98, 10, 32, 10, 35, 99, 10, 38, 100, 10, 43, 108, 105, 115, 116, 10] = 4 ∧
+    allStores true (pass2 true (fun _ => false) false [97, 64, 98, 10, 32, 10, 35, 99, 10, 38, 100, 10, 43, 108, 105, 115, 116, 10]) = [0, 1, 2] := by
+  decide
+-- "+list" then a program line: the run dies before anything is stored
+example : (pass2 true (fun _ => false) false [43, 108, 105, 115, 116, 10, 124, 112, 10, 97, 10]).exit = .die := by decide
+
+end localpass
+
+/-! ## (h) getln2.c / getln.c / byte_chr.c -/
+
+section getln
+open Nq.Getln Nq.Substdio Nq.Stralloc
+
+/-- **getln2, for every stream, every read chunking (script), every allocator behaviour, every separator and every
+well-formed starting state**: every offset `byte_chr` dereferences is inside the substdio buffer; a returned slice
+`[*cont, *cont + *clen)` lies inside the buffer (`*clen = 0` at end of input); every `substdio_get` into the line buffer
+copies to `sa->s[start .. start+count)` with `start + count ≤ sa->a` as it is at that moment (what
+`stralloc_readyplus(sa,n)` just guaranteed); the substdio invariant `n + p = size` and the stralloc invariant survive,
+whether the call succeeds or fails.  Hypothesis `size < 2³²`: `substdio.n` is a C `int`, a larger buffer cannot be
+described at all. -/
+theorem C20_getln2_in_bounds (grant : Nat → Bool) (sep : Byte) (g : GSt)
+    (hi : IWF g.ss) (hw : WF 1 g.sa) (hs : g.ss.size < Stralloc.U32) :
+    IWF (getln2 grant sep g).st.ss ∧ (getln2 grant sep g).st.ss.size = g.ss.size ∧ WF 1 (getln2 grant sep g).st.sa ∧
+    (∀ j ∈ (getln2 grant sep g).rd, j < g.ss.size) ∧
+    (∀ e ∈ (getln2 grant sep g).sast, e.1 + e.2.1 ≤ e.2.2) ∧
+    ((getln2 grant sep g).ret = true → (getln2 grant sep g).cont + (getln2 grant sep g).clen ≤ g.ss.size) := by
+  unfold getln2
+  by_cases hr : (ready 1 30 grant g.sa 0).ret = true
+  · rw [if_pos hr]
+    obtain ⟨r1, r2, _⟩ := rpi_ok 1 30 grant g.sa 0 0 hw (by decide) hr
+    change WF 1 (ready 1 30 grant g.sa 0).x at r1
+    change (ready 1 30 grant g.sa 0).x.nonnull = true at r2
+    have hw0 : WF 1 { (ready 1 30 grant g.sa 0).x with len := 0 } :=
+      ⟨by show 0 < Stralloc.U32; decide, r1.2.1, fun _ => ⟨Nat.zero_le _, (r1.2.2 r2).2⟩⟩
+    have := loop_good grant sep g.ss.size hs (g.ss.data.length + g.ss.src.length + 2)
+      ⟨g.ss, { (ready 1 30 grant g.sa 0).x with len := 0 }⟩ [] [] hi rfl hw0 r2
+      (by intro j h; cases h) (by intro e h; cases h)
+    exact ⟨this.iwf, this.size, this.wf, this.rd, this.sast, this.cont⟩
+  · rw [if_neg hr]
+    have hr' : (readyplusInternal 1 30 grant g.sa 0 0).ret = false := by simpa [ready] using hr
+    have := rpi_fail 1 30 grant g.sa 0 0 hw hr'
+    refine ⟨hi, rfl, this.1, ?_, ?_, ?_⟩
+    · intro j h; cases h
+    · intro e h; cases h
+    · intro h; cases h
+
+/-- **getln**: when it goes on to `stralloc_catb(sa,cont,clen)`, the `clen` bytes it copies FROM lie inside the substdio
+buffer and the record it copies TO is well-formed, so `C20_catb_sound` applies to the copy. -/
+theorem C20_getln_copy_in_bounds (grant : Nat → Bool) (sep : Byte) (g : GSt)
+    (hi : IWF g.ss) (hw : WF 1 g.sa) (hs : g.ss.size < Stralloc.U32) (out : Out)
+    (h : (getln grant sep g).2 = some out) :
+    (getln grant sep g).1.cont + (getln grant sep g).1.clen ≤ g.ss.size ∧
+    (out.ret = true → WF 1 out.x ∧ storesIn out ∧ out.x.len < out.x.a) := by
+  obtain ⟨_, _, a3, _, _, a6⟩ := C20_getln2_in_bounds grant sep g hi hw hs
+  unfold getln at h ⊢
+  by_cases hc : ((getln2 grant sep g).ret && decide ((getln2 grant sep g).clen ≠ 0)) = true
+  · rw [if_pos hc] at h ⊢
+    simp only [Option.some.injEq] at h
+    subst h
+    simp only [Bool.and_eq_true] at hc
+    refine ⟨a6 hc.1, fun hret => ?_⟩
+    obtain ⟨c1, c2, _, c4⟩ := C20_catb_sound grant _ _ a3 hret
+    exact ⟨c1, c2, c4⟩
+  · rw [if_neg hc] at h; cases h
+
+-- non-vacuity: a 4-byte buffer, the stream "ab\ncd" delivered 3 bytes at a time: first call returns the slice at
+-- offset 1 of length 3 with nothing copied; the second call reaches end of input with "cd" in the line buffer
+example : IWF { size := 4, n := 4, src := [97, 98, 10, 99, 100], rs := [3, 3, 3] } ∧
+    ((getln2 (fun _ => true) 10 ⟨{ size := 4, n := 4, src := [97, 98, 10, 99, 100], rs := [3, 3, 3] }, {}⟩).cont,
+     (getln2 (fun _ => true) 10 ⟨{ size := 4, n := 4, src := [97, 98, 10, 99, 100], rs := [3, 3, 3] }, {}⟩).clen) = (1, 3) := by
+  decide
+
+end getln
 
 /-! ## non-vacuity -/
 
